@@ -18,7 +18,7 @@
 #include <stdlib.h>
 typedef unsigned size_type;
 typedef unsigned packed_size_type;
-enum { RAW = 0, LIVE = 1, OUT = 2 };
+enum { RAW = 0, LIVE = 1, FREED = 2 };   /* FREED: slot of a block handed back to freeN (any later use fails T's RAW/LIVE precondition) */
 typedef struct Elem { int val; int life; } Elem;
 struct Arr { Elem* pData; packed_size_type nUsed; packed_size_type nAllocated; };
 
@@ -39,7 +39,9 @@ static size_type vf_min(size_type a, size_type b) { return (b < a) ? b : a; }   
 #define VERIF_ASSERT(c, what) __CPROVER_assert(c, "assert(): " what)
 
 /* ---- T's special members (contracted stubs with executable contract bodies: assert requires, effect, havoc of what is unspecified) ---- */
-#define SLOT_OK(p) __CPROVER_assert(__CPROVER_rw_ok(p, sizeof(Elem)), "T's special member: pointer addresses a slot inside a block that has not been freed (no null/dangling/out-of-bounds access)")
+#define SLOT_OK(p) __CPROVER_assert((p) != 0 && __CPROVER_POINTER_OFFSET(p) >= 0 && __CPROVER_POINTER_OFFSET(p) % sizeof(Elem) == 0 && \
+                                    (unsigned long)__CPROVER_POINTER_OFFSET(p) + sizeof(Elem) <= __CPROVER_OBJECT_SIZE(p), \
+                                    "T's special member: pointer addresses a slot inside its block (no null / out-of-bounds access; freed blocks are caught by the FREED life-cycle state)")
 static void Elem_default_construct(Elem* p) {
   SLOT_OK(p);
   __CPROVER_assert(p->life == RAW, "T(): target slot is raw storage (no element constructed twice)");
@@ -64,26 +66,20 @@ static void Elem_destruct(Elem* p) {
   p->life = RAW; p->val = nondet_int(); ghost_ndtor++;
 }
 
-/* ---- allocator ----
-   Every block has BLOCK slots physically (constant-size objects keep CBMC fast); slots [n,BLOCK) of an allocN(n) block are marked OUT
-   ("not part of the allocation"): T's stubs reject OUT slots exactly like an out-of-bounds access, so a block behaves as n slots.
-   The cut code touches element memory only through T's special members, hence through these checks. */
-#ifndef BLOCK
-#define BLOCK 12
-#endif
+/* ---- allocator ---- */
 static Elem* allocN(size_type n) {
   if (n == 0) return 0;
-  __CPROVER_assert(n <= BLOCK, "model bound: requested capacity fits the bounded block model");
-  Elem* p = (Elem*)calloc(BLOCK, sizeof(Elem));      /* all slots RAW (== 0); std::bad_alloc not modelled (CBMC's calloc never fails) */
-  for (size_type k = 0; k < BLOCK; k++) if (k >= n) p[k].life = OUT;
+  Elem* p = (Elem*)calloc(n, sizeof(Elem));      /* n slots, all RAW (== 0); std::bad_alloc not modelled (cbmc --no-malloc-may-fail) */
   ghost_nalloc++;
   return p;
 }
 static void freeN(Elem* p) {
   if (p == 0) return;
   __CPROVER_assert(__CPROVER_POINTER_OFFSET(p) == 0, "freeN: pointer is the start of an allocN block");
-  for (size_type k = 0; k < BLOCK; k++)
+  for (size_type k = 0; k < __CPROVER_OBJECT_SIZE(p) / sizeof(Elem); k++) {
+    __CPROVER_assert(p[k].life != FREED, "freeN: block not freed twice");
     __CPROVER_assert(p[k].life != LIVE, "freeN: every slot of the freed block is raw (no live element leaked/lost)");
-  free(p);
+    p[k].life = FREED;      /* instead of free(): CBMC's deallocation tracking makes symbolic execution quadratic in the number of frees */
+  }
   ghost_nfree++;
 }
